@@ -62,13 +62,14 @@ theorem fieldEquals_struct (o : Oracle) (m : Module) (eqv : SView → SView → 
   cases ha <;> cases hb <;> cases pa <;> cases pb <;> cases ea <;> cases eb <;> cases fd <;> simp
 
 /-- soundness: the accessor's view is the view R assigns to the field -/
-theorem realSub_sound {m : Module} (hm : refModule m = true) {o : Oracle} {w : SView}
-    (href : refStruct m w.sd = true) (hwf : viewWF w = true) (hfacts : FactsOf m o w)
+theorem realSub_sound {m : Module} {P : StructDef → Prop} (hm : Closed m P) {o : Oracle} {w : SView}
+    (hP : P w.sd) (hwf : viewWF w = true) (hfacts : FactsOf m o w)
     {x : String} {f : Field} (hf : w.sd.field x = some f)
     {start size : Expr} {name : String} {bits : Nat} {args : Exprs} {bo : ByteOrder}
     (hk : f.kind = .phys start size (.struct name bits args) bo) {w' : SView}
     (h : realSub o m w f start size name bits args bo = some w') :
-    SubViewR m w x w' ∧ viewWF w' = true ∧ m.find name = some w'.sd := by
+    SubViewR m w x w' ∧ viewWF w' = true ∧ m.find name = some w'.sd ∧ P w'.sd := by
+  have href := hm.ref _ hP
   have hff := ref_of_field href hf
   unfold refField at hff
   rw [hk] at hff
@@ -97,7 +98,7 @@ theorem realSub_sound {m : Module} (hm : refModule m = true) {o : Oracle} {w : S
         obtain ⟨hwin, hwf'⟩ := window_bridge hwf hchild bo off.toNat s.toNat hlit (some vs)
         rw [hsteq, hwin] at h
         subst h
-        refine ⟨?_, hwf', rfl⟩
+        refine ⟨?_, hwf', rfl, hm.step _ hP x f hf _ _ _ _ _ _ _ hk hfind⟩
         refine SubViewR.mk (s := off) (z := s) (envOf o w none) hf hk hfind hfacts.1 hfacts.2
           (fun _ _ h => h) rfl ?_ ?_ hoff0 hs0 ?_
         · rw [evalR_eq_eval _ _ hfstart]; exact evalInt_some hstart
@@ -105,14 +106,14 @@ theorem realSub_sound {m : Module} (hm : refModule m = true) {o : Oracle} {w : S
         · rw [evalArgsR_eq _ _ hfargs]; exact hargs
 
 /-- completeness: the view R assigns to a present field is the accessor's view -/
-theorem realSub_complete (m : Module) (hm : refModule m = true) (hwfm : moduleWF m = true)
-    (hlocm : reqLocalModule m = true) (n : Nat) (w : SView) (href : refStruct m w.sd = true)
-    (hloc : reqLocal w.sd = true) (hwf : viewWF w = true) {x : String} {f : Field}
+theorem realSub_complete (m : Module) {P : StructDef → Prop} (hm : Closed m P) (hwfm : moduleWF m = true)
+    (n : Nat) (w : SView) (hP : P w.sd) (hwf : viewWF w = true) {x : String} {f : Field}
     (hf : w.sd.field x = some f) {start size : Expr} {name : String} {bits : Nat} {args : Exprs}
     {bo : ByteOrder} (hk : f.kind = .phys start size (.struct name bits args) bo)
     (hn : need m (n + 1) w.sd [x] = true) (hpres : RFact m w (.pres [x] true)) {w' : SView}
     (h : SubViewR m w x w') :
     realSub (G m n) m w f start size name bits args bo = some w' := by
+  have href := hm.ref _ hP
   cases h with
   | mk ρ hf' hk' hfind hr hh hp hl hs hz hs0 hz0 hargs =>
     rename_i f' start' size' name' bits' args' bo' sd' s z vs
@@ -129,7 +130,7 @@ theorem realSub_complete (m : Module) (hm : refModule m = true) (hwfm : moduleWF
     rw [evalR_eq_eval _ _ hfstart] at hs
     rw [evalR_eq_eval _ _ hfsize] at hz
     rw [evalArgsR_eq _ _ hfargs] at hargs
-    have hle := fun refs hn' => env_le_of_facts m hm hwfm hlocm n w href hloc hwf ρ refs hr hh hp hl hn'
+    have hle := fun refs hn' => env_le_of_facts m hm hwfm n w hP hwf ρ refs hr hh hp hl hn'
     have hs' := eval_le_on start (hle _
       (fun r hr' => hrefs r (by
         simp only [fieldRefs, hk, List.mem_append]; exact Or.inr (Or.inl (Or.inl hr'))))) _ hs
@@ -139,7 +140,7 @@ theorem realSub_complete (m : Module) (hm : refModule m = true) (hwfm : moduleWF
     have hargs' := evalArgs_le_on args vs (hle _
       (fun r hr' => hrefs r (by
         simp only [fieldRefs, hk, ptypeRefs, List.mem_append]; exact Or.inr (Or.inr hr')))) hargs
-    have hhas := presence_complete m hm hwfm hlocm n w href hloc hwf hf hpres hn
+    have hhas := presence_complete m hm hwfm n w hP hwf hf hpres hn
     have hst := physStorage_of hhas (evalInt_of_eval hz') (evalInt_of_eval hs') hz0 hs0
     have hlit : ∀ zl, size = .const (.int zl) → zl.toNat = z.toNat := by
       intro zl hzl; subst hzl
@@ -170,9 +171,8 @@ theorem paramsAgree_iff (wa wb : SView) :
 
 /-- the scalar clause of the generated `Equals` is R's "same presence, and if present the same
 value" -/
-theorem scalarClause_iff (m : Module) (hm : refModule m = true) (hwfm : moduleWF m = true)
-    (hlocm : reqLocalModule m = true) (n : Nat) (wa wb : SView) (hsd : wb.sd = wa.sd)
-    (href : refStruct m wa.sd = true) (hloc : reqLocal wa.sd = true)
+theorem scalarClause_iff (m : Module) {P : StructDef → Prop} (hm : Closed m P) (hwfm : moduleWF m = true)
+    (n : Nat) (wa wb : SView) (hsd : wb.sd = wa.sd) (hP : P wa.sd)
     (hwa : viewWF wa = true) (hwb : viewWF wb = true) {f : Field}
     (hf : wa.sd.field f.name = some f) {start size : Expr} {k : ScalarKind} {bits : Nat}
     {req : Option Expr} {bo : ByteOrder} (hk : f.kind = .phys start size (.scalar k bits req) bo)
@@ -180,8 +180,9 @@ theorem scalarClause_iff (m : Module) (hm : refModule m = true) (hwfm : moduleWF
     fieldEquals (G m n) m eqv wa wb f = true ↔
       ∃ c, RFact m wa (.pres [f.name] c) ∧ RFact m wb (.pres [f.name] c) ∧
         (c = true → ∃ v, RFact m wa (.val [f.name] v) ∧ RFact m wb (.val [f.name] v)) := by
-  have hrefb : refStruct m wb.sd = true := by rw [hsd]; exact href
-  have hlocb : reqLocal wb.sd = true := by rw [hsd]; exact hloc
+  have hPb : P wb.sd := by rw [hsd]; exact hP
+  have href := hm.ref _ hP
+  have hrefb := hm.ref _ hPb
   have hnb : need m (n + 1) wb.sd [f.name] = true := by rw [hsd]; exact hn
   rw [fieldEquals_scalar m n wa wb hsd _ hf hk]
   constructor
@@ -196,7 +197,7 @@ theorem scalarClause_iff (m : Module) (hm : refModule m = true) (hwfm : moduleWF
         simp only [Bool.and_eq_true, beq_iff_eq, Bool.or_eq_true, Bool.not_eq_true'] at hfe
         obtain ⟨hab, hval⟩ := hfe
         subst hab
-        refine ⟨ha, (G_sound m hm (n + 1) wa href hwa).2 _ _ hA, (G_sound m hm (n + 1) wb hrefb hwb).2 _ _ hB, ?_⟩
+        refine ⟨ha, (G_sound m hm (n + 1) wa hP hwa).2 _ _ hA, (G_sound m hm (n + 1) wb hPb hwb).2 _ _ hB, ?_⟩
         intro hc
         subst hc
         rcases hval with hval | hval
@@ -210,54 +211,54 @@ theorem scalarClause_iff (m : Module) (hm : refModule m = true) (hwfm : moduleWF
               rw [hRA, hRB] at hval
               simp only [beq_iff_eq] at hval
               subst hval
-              exact ⟨x, (G_sound m hm (n + 1) wa href hwa).1 _ _ hRA,
-                (G_sound m hm (n + 1) wb hrefb hwb).1 _ _ hRB⟩
+              exact ⟨x, (G_sound m hm (n + 1) wa hP hwa).1 _ _ hRA,
+                (G_sound m hm (n + 1) wb hPb hwb).1 _ _ hRB⟩
   · intro ⟨c, fa, fb, hv⟩
-    have hA := G_complete m hm hwfm hlocm (n + 1) wa _ fa href hloc hwa hn
-    have hB := G_complete m hm hwfm hlocm (n + 1) wb _ fb hrefb hlocb hwb hnb
+    have hA := G_complete m hm hwfm (n + 1) wa _ fa hP hwa hn
+    have hB := G_complete m hm hwfm (n + 1) wb _ fb hPb hwb hnb
     rw [hA, hB]
     cases c with
     | false => simp
     | true =>
       obtain ⟨v, va, vb⟩ := hv rfl
-      have hRA := G_complete m hm hwfm hlocm (n + 1) wa _ va href hloc hwa hn
-      have hRB := G_complete m hm hwfm hlocm (n + 1) wb _ vb hrefb hlocb hwb hnb
+      have hRA := G_complete m hm hwfm (n + 1) wa _ va hP hwa hn
+      have hRB := G_complete m hm hwfm (n + 1) wb _ vb hPb hwb hnb
       rw [hRA, hRB]
       simp
 
 /-- the clause of the generated `Equals` for a field of structure / `bits` type: same presence,
 and if present the two views R assigns to the field are related by whatever `Equals` of the
 inner type decides -/
-theorem structClause_iff (m : Module) (hm : refModule m = true) (hwfm : moduleWF m = true)
-    (hlocm : reqLocalModule m = true) (n : Nat) (wa wb : SView) (hsd : wb.sd = wa.sd)
-    (href : refStruct m wa.sd = true) (hloc : reqLocal wa.sd = true)
+theorem structClause_iff (m : Module) {P : StructDef → Prop} (hm : Closed m P) (hwfm : moduleWF m = true)
+    (n : Nat) (wa wb : SView) (hsd : wb.sd = wa.sd) (hP : P wa.sd)
     (hwa : viewWF wa = true) (hwb : viewWF wb = true) {f : Field}
     (hf : wa.sd.field f.name = some f) {start size : Expr} {name : String} {bits : Nat} {args : Exprs}
     {bo : ByteOrder} (hk : f.kind = .phys start size (.struct name bits args) bo)
     (hn : need m (n + 1) wa.sd [f.name] = true) (eqv : SView → SView → Bool)
-    (P : SView → SView → Prop)
-    (ih : ∀ wa' wb', wa'.sd ∈ m.structs → wb'.sd = wa'.sd → viewWF wa' = true → viewWF wb' = true →
-      (eqv wa' wb' = true ↔ P wa' wb')) :
+    (Q : SView → SView → Prop)
+    (ih : ∀ wa' wb', P wa'.sd → wb'.sd = wa'.sd → viewWF wa' = true → viewWF wb' = true →
+      (eqv wa' wb' = true ↔ Q wa' wb')) :
     fieldEquals (G m n) m eqv wa wb f = true ↔
       ∃ c, RFact m wa (.pres [f.name] c) ∧ RFact m wb (.pres [f.name] c) ∧
-        (c = true → ∃ wa' wb', SubViewR m wa f.name wa' ∧ SubViewR m wb f.name wb' ∧ P wa' wb') := by
-  have hrefb : refStruct m wb.sd = true := by rw [hsd]; exact href
-  have hlocb : reqLocal wb.sd = true := by rw [hsd]; exact hloc
+        (c = true → ∃ wa' wb', SubViewR m wa f.name wa' ∧ SubViewR m wb f.name wb' ∧ Q wa' wb') := by
+  have hPb : P wb.sd := by rw [hsd]; exact hP
+  have href := hm.ref _ hP
+  have hrefb := hm.ref _ hPb
   have hnb : need m (n + 1) wb.sd [f.name] = true := by rw [hsd]; exact hn
   have hfb : wb.sd.field f.name = some f := by rw [hsd]; exact hf
-  have FA := G_sound m hm n wa href hwa
-  have FB := G_sound m hm n wb hrefb hwb
+  have FA := G_sound m hm n wa hP hwa
+  have FB := G_sound m hm n wb hPb hwb
   -- what the accessor results are related by, once both are real
   have hsubs : ∀ wa' wb', realSub (G m n) m wa f start size name bits args bo = some wa' →
       realSub (G m n) m wb f start size name bits args bo = some wb' →
-      SubViewR m wa f.name wa' ∧ SubViewR m wb f.name wb' ∧ (eqv wa' wb' = true ↔ P wa' wb') := by
+      SubViewR m wa f.name wa' ∧ SubViewR m wb f.name wb' ∧ (eqv wa' wb' = true ↔ Q wa' wb') := by
     intro wa' wb' ha hb
-    obtain ⟨sa, wfa, fda⟩ := realSub_sound hm href hwa FA hf hk ha
-    obtain ⟨sb, wfb, fdb⟩ := realSub_sound hm hrefb hwb FB hfb hk hb
+    obtain ⟨sa, wfa, fda, pa⟩ := realSub_sound hm hP hwa FA hf hk ha
+    obtain ⟨sb, wfb, fdb, _⟩ := realSub_sound hm hPb hwb FB hfb hk hb
     have hsd' : wb'.sd = wa'.sd := by
       rw [fda] at fdb
       exact (Option.some.inj fdb).symm
-    exact ⟨sa, sb, ih wa' wb' (find_mem fda) hsd' wfa wfb⟩
+    exact ⟨sa, sb, ih wa' wb' pa hsd' wfa wfb⟩
   rw [fieldEquals_struct _ _ _ _ _ _ hk]
   constructor
   · intro hfe
@@ -287,50 +288,45 @@ theorem structClause_iff (m : Module) (hm : refModule m = true) (hwfm : moduleWF
               obtain ⟨sa, sb, hiff⟩ := hsubs wa' wb' hRA hRB
               exact ⟨wa', wb', sa, sb, hiff.mp hval⟩
   · intro ⟨c, fa, fb, hv⟩
-    have hA := presence_complete m hm hwfm hlocm n wa href hloc hwa hf fa hn
-    have hB := presence_complete m hm hwfm hlocm n wb hrefb hlocb hwb hfb fb hnb
+    have hA := presence_complete m hm hwfm n wa hP hwa hf fa hn
+    have hB := presence_complete m hm hwfm n wb hPb hwb hfb fb hnb
     rw [hA, hB]
     cases c with
     | false => simp
     | true =>
-      obtain ⟨wa', wb', sa, sb, hP⟩ := hv rfl
-      have hRA := realSub_complete m hm hwfm hlocm n wa href hloc hwa hf hk hn fa sa
-      have hRB := realSub_complete m hm hwfm hlocm n wb hrefb hlocb hwb hfb hk hnb fb sb
+      obtain ⟨wa', wb', sa, sb, hQ⟩ := hv rfl
+      have hRA := realSub_complete m hm hwfm n wa hP hwa hf hk hn fa sa
+      have hRB := realSub_complete m hm hwfm n wb hPb hwb hfb hk hnb fb sb
       obtain ⟨_, _, hiff⟩ := hsubs wa' wb' hRA hRB
       rw [hRA, hRB]
-      simp [hiff.mpr hP]
+      simp [hiff.mpr hQ]
 
-/-- module-wide side conditions of `viewEquals_iff_logEq` (all decidable except the trivially
-true uniqueness of field names; the driver checks `refModule`-style predicates on every IR) -/
-structure ModOK (m : Module) (n : Nat) : Prop where
-  ref : refModule m = true
+/-- side conditions of `viewEquals_iff_logEq`, for a family `P` of structures closed under "type
+of a field" (`Closed`): the decidable per-structure hypotheses of the refinement, plus unique
+field names, no array fields, and fuel covering every field.  Instances: all structures of a
+module (`ModOK.ofModule`), or the structures reachable from one structure. -/
+structure ModOK (m : Module) (n : Nat) (P : StructDef → Prop) : Prop where
+  closed : Closed m P
   wf : moduleWF m = true
-  loc : reqLocalModule m = true
-  uniq : ∀ sd ∈ m.structs, namesUnique sd
-  noarr : ∀ sd ∈ m.structs, noArrayFields sd = true
-  fuel : ∀ sd ∈ m.structs, ∀ f ∈ sd.fields, need m (n + 1) sd [f.name] = true
+  uniq : ∀ sd, P sd → namesUnique sd
+  noarr : ∀ sd, P sd → noArrayFields sd = true
+  fuel : ∀ sd, P sd → ∀ f ∈ sd.fields, need m (n + 1) sd [f.name] = true
 
 /-- **`Equals` is recursive logical equality.** -/
-theorem viewEquals_iff_logEq (m : Module) (n : Nat) (h : ModOK m n) :
-    ∀ (k : Nat) (wa wb : SView), wa.sd ∈ m.structs → wb.sd = wa.sd → viewWF wa = true →
+theorem viewEquals_iff_logEq (m : Module) (n : Nat) {P : StructDef → Prop} (h : ModOK m n P) :
+    ∀ (k : Nat) (wa wb : SView), P wa.sd → wb.sd = wa.sd → viewWF wa = true →
       viewWF wb = true → (viewEquals (G m n) m k wa wb = true ↔ LogEq m k wa wb)
   | 0, wa, wb, _, _, _, _ => by simp [viewEquals, LogEq]
-  | k + 1, wa, wb, hmem, hsd, hwa, hwb => by
+  | k + 1, wa, wb, hP, hsd, hwa, hwb => by
     have ih := viewEquals_iff_logEq m n h k
-    have href : refStruct m wa.sd = true := by
-      have := h.ref; unfold refModule at this
-      exact List.all_eq_true.mp this _ hmem
-    have hloc : reqLocal wa.sd = true := by
-      have := h.loc; unfold reqLocalModule at this
-      exact List.all_eq_true.mp this _ hmem
     simp only [viewEquals, LogEq, Bool.and_eq_true, List.all_eq_true]
     refine and_congr ?_ (forall_congr' (fun f => forall_congr' (fun hfm => ?_)))
     · unfold ParamsAgree
       simp only [Bool.or_eq_true, List.isEmpty_iff]
       refine or_congr Iff.rfl ?_
       cases wa.params <;> cases wb.params <;> simp
-    have hf := h.uniq _ hmem f hfm
-    have hn := h.fuel _ hmem f hfm
+    have hf := h.uniq _ hP f hfm
+    have hn := h.fuel _ hP f hfm
     cases hk : f.kind with
     | alias t => simp [fieldEquals, hk, isPhys]
     | virt v r => simp [fieldEquals, hk, isPhys]
@@ -339,12 +335,12 @@ theorem viewEquals_iff_logEq (m : Module) (n : Nat) (h : ModOK m n) :
       simp only [hphys, forall_const]
       cases ty with
       | array el es =>
-        have := List.all_eq_true.mp (h.noarr _ hmem) f hfm
+        have := List.all_eq_true.mp (h.noarr _ hP) f hfm
         rw [hk] at this
         cases this
       | scalar kk bits req =>
-        exact scalarClause_iff m h.ref h.wf h.loc n wa wb hsd href hloc hwa hwb hf hk hn _
+        exact scalarClause_iff m h.closed h.wf n wa wb hsd hP hwa hwb hf hk hn _
       | struct name bits args =>
-        exact structClause_iff m h.ref h.wf h.loc n wa wb hsd href hloc hwa hwb hf hk hn _ _ ih
+        exact structClause_iff m h.closed h.wf n wa wb hsd hP hwa hwb hf hk hn _ _ ih
 
 end Emboss.ViewRef
